@@ -516,6 +516,33 @@ CORPUS = [
     # a name redefined in a later block
     [[([("batter",)], False, ("step", ("whisk",), [_leaf("eggs", ("qty", 2, None, "", "")), _leaf("flour", ("qty", 100, "g", "", ""))]))],
      [(None, False, _leaf("milk")), ([("batter",)], True, _leaf("egg", ("qty", 1, None, "", "")))]],
+    # a statement with several outputs over a single quantified ingredient, one output used once by exactly that quantity (never folded)
+    [[([("rashers",), ("fat",)], False, ("step", ("fry",), [_leaf("bacon", ("qty", 200, "g", "", ""))])),
+      (None, False, ("step", ("serve",), [_leaf("rashers", ("qty", 200, "g", "", "")), _leaf("fat")]))]],
+    [[([("rashers",), ("fat",)], True, ("step", ("fry",), [_leaf("bacon", ("qty", 200, "g", "", ""))])),
+      (None, False, ("step", ("serve",), [_leaf("rashers", ("qty", 0.2, "kg", " ", " of the")), _leaf("eggs")]))]],
+    [[([("whey",), ("curd",)], False, _leaf("milk", ("qty", 1, "l", " ", ""))), (None, False, ("step", ("press",), [_leaf("curd", ("qty", 1, "l", " ", ""))]))]],
+    # an earlier definition folded into a statement with several outputs; a later use of an output that is not the first
+    [[(None, False, _leaf("eggs", ("qty", 2, None, "", ""))), ([("white",), ("yolk",)], False, ("step", ("separate",), [_leaf("eggs")])),
+      ([("custard",)], False, ("step", ("heat",), [_leaf("yolk", ("prop", Fraction(1, 2), " of the")), _leaf("milk")])),
+      (None, False, ("step", ("whisk",), [_leaf("white"), _leaf("yolk", ("rem", "rest", " of the")), _leaf("custard")]))]],
+    [[(None, False, _leaf("cane", ("qty", 1, "kg", " ", ""))), ([("juice",), ("syrup",), ("crystals",)], True, ("step", ("refine",), [_leaf("cane")]))],
+     [(None, False, ("step", ("dust",), [_leaf("cake"), _leaf("crystals")]))]],
+    # a fold in an earlier block; a later block defines something from its result which is then itself folded
+    [[(None, False, _leaf("spam", ("qty", 100, "g", "", ""))), ([("meat",)], False, ("step", ("fry",), [_leaf("spam"), _leaf("oil")]))],
+     [([("sandwich",)], False, ("step", ("assemble",), [_leaf("bread"), _leaf("meat")])), (None, False, ("step", ("serve",), [_leaf("sandwich"), _leaf("salad")]))]],
+    # a chain whose lower link keeps its title (':='), resp. is measured in a free-form unit; the top is used once by the full quantity
+    [[([("fried spam",)], True, ("step", ("fry",), [_leaf("spam", ("qty", 100, "g", "", ""))])), ([("meal",)], False, ("step", ("boil",), [_leaf("fried spam")])),
+      (None, False, ("step", ("serve",), [_leaf("meal", ("qty", 100, "g", "", " of"))]))]],
+    [[(None, False, _leaf("rice", ("xqty", 2, "handfuls", " ", ""))), ([("cooked rice",)], False, ("step", ("boil",), [_leaf("rice")])),
+      ([("dinner",)], False, ("step", ("season",), [_leaf("cooked rice")])), (None, False, ("step", ("serve",), [_leaf("dinner", ("xqty", 2, "handfuls", " ", " of"))]))]],
+    # an escaped zero and other escaped digits in a name (kept as text, never scaled); the same name written with the digits unescaped
+    [[([("10 minute rice",)], False, ("step", ("boil",), [_leaf("rice", ("qty", 100, "g", "", ""))])),
+      (None, False, ("step", ("rest 10 minutes then mix",), [_leaf("10 minute rice"), _leaf("peas")]))]],
+    # a name with a number in braces next to the name with the same digits as text: two different names
+    [[([("sauce for ", 2)], False, ("step", ("boil",), [_leaf("tomatoes", ("qty", 400, "g", "", "")), _leaf("water")])),
+      (None, False, ("step", ("top with",), [_leaf("pasta"), ("leaf", None, ("sauce for ", 2)), _leaf("sauce for 2")]))]],
+    [[([("dough ", Fraction(1, 2))], False, ("step", ("knead",), [_leaf("flour")])), ([("dough ", 0.5)], False, ("step", ("prove",), [_leaf("yeast")]))]],
 ]
 
 
